@@ -93,10 +93,38 @@ def scenario(sc, tmproot, chooser_factory):
             o = W.RegionSaverWorker(regtpl)
         elif k == "joiner":
             o = W.AudioEventsJoinerWorker(sc["silence"], os.path.join(tmp, f"joined{i}.wav"), None, sr, sw, ch)
+        elif k == "player":
+            class MockPlayer:
+                def play(self_, d, progress_bar=False, **kw):
+                    played.append(bytes(d))
+            o = W.PlayerWorker(MockPlayer(), progress_bar=False)
+        elif k == "command":
+            o = W.CommandLineWorker("consume {file}")
         o._ctl_name = "o%d" % (i + 1)
         S.qnames[id(o._inbox)] = o._ctl_name
         observers.append(o)
     W.print = lambda text: printed.append(text)
+    played = []
+    commands = []
+
+    class OsShim:
+        """auditok.workers' view of the os module with system() recorded instead of spawning a shell"""
+        def __getattr__(self_, name):
+            return getattr(os, name)
+
+        def system(self_, cmd):
+            f = cmd.split(" ", 1)[1] if " " in cmd else ""
+            try:
+                with wave.open(f) as wf:
+                    commands.append((cmd.split(" ")[0], wf.readframes(-1), (wf.getframerate(), wf.getsampwidth(), wf.getnchannels())))
+            except Exception:
+                commands.append((cmd, None, None))
+            try:
+                os.remove(f)
+            except OSError:
+                pass
+            return 0
+    W.os = OsShim()
     fn = os.path.join(tmp, "stream.wav")
     src = reader
     saver = None
@@ -212,6 +240,18 @@ def scenario(sc, tmproot, chooser_factory):
                 except Exception:
                     regfiles_ok = False
             processed.append(sorted(ids))
+        elif k == "player":
+            # what was played, in order, must be the detections' audio in order
+            ids = []
+            for d_ in played:
+                ids.append(next((i_ for i_, v_ in detregs.items() if v_ == d_ and i_ not in ids), -1))
+            processed.append(ids)
+        elif k == "command":
+            ids = []
+            for name, d_, par in commands:
+                ok_ = name == "consume" and par == (sr, sw, ch)
+                ids.append(next((i_ for i_, v_ in detregs.items() if v_ == d_ and i_ not in ids), -1) if ok_ else -1)
+            processed.append(ids)
         elif k == "joiner":
             # joiner: the ids are not observable; what it wrote is
             nsil = round(Fraction_round(sc["silence"], sr))
@@ -259,6 +299,7 @@ def scenario(sc, tmproot, chooser_factory):
             saver._wfp.close()
     except Exception:
         pass
+    W.os = os
     shutil.rmtree(tmp, ignore_errors=True)
     return impl, obs_rec
 
@@ -566,7 +607,10 @@ def rand_scenario(rng, tier, prop):
     B = rng.choice([1, 2, 5])
     sw, ch = rng.choice([(1, 1), (2, 1), (2, 2), (4, 1)])
     nobs = rng.choice([0, 1, 1, 2, 3])
-    kinds = [rng.choice(["rec", "rec", "print", "regsave", "joiner"] if prop == "C13" else ["rec", "rec", "print", "regsave"]) for _ in range(nobs)]
+    kinds = [rng.choice(["rec", "rec", "print", "regsave", "joiner"] if prop == "C13" else ["rec", "rec", "print", "regsave", "player", "command"]) for _ in range(nobs)]
+    for one in ("player", "command"):
+        if kinds.count(one) > 1:
+            kinds = ["rec" if (k == one and i != kinds.index(one)) else k for i, k in enumerate(kinds)]
     if kinds.count("joiner") > 1:
         kinds = ["rec" if (k == "joiner" and i != kinds.index("joiner")) else k for i, k in enumerate(kinds)]
     if kinds.count("print") > 1:
